@@ -440,12 +440,16 @@ fn gen(thorough: bool, seed: u64) -> Vec<String> {
         }
         // pairs
         let all = tabs_n(n);
-        let npairs = if thorough { all.len() * all.len() } else { 24 };
+        // every ordered pair of functions (the property quantifies over all lists of 1..2 functions
+        // for n <= 2); quick: one cost triple per pair, thorough: three
+        let npairs = all.len() * all.len();
         for i in 0..npairs {
-            let (f, g) = if thorough { (all[i / all.len()].clone(), all[i % all.len()].clone()) } else { (r.pick(&all).clone(), r.pick(&all).clone()) };
-            let (a, x, o) = *r.pick(&triples);
-            for k in kinds {
-                out.push(format!("mip {} {} {} {} {} {}", k, a, x, o, f.show(), g.show()));
+            let (f, g) = (all[i / all.len()].clone(), all[i % all.len()].clone());
+            for rep in 0..(if thorough { 3 } else { 1 }) {
+                let (a, x, o) = if rep == 0 && i % 2 == 0 { (1, 1, 1) } else { *r.pick(&triples) };
+                for k in kinds {
+                    out.push(format!("mip {} {} {} {} {} {}", k, a, x, o, f.show(), g.show()));
+                }
             }
             if i % 4 == 0 {
                 out.push(format!("mipcand {} {} {}", n, f.show(), g.show()));
